@@ -17,6 +17,8 @@ struct Script {
     /// ops executed (fault-free) to build the file the script opens; empty =
     /// the script starts with Package::create
     seed_ops: Vec<Op>,
+    /// add both signature streams to the seed file
+    signed: bool,
     ops: Vec<Op>,
 }
 
@@ -27,9 +29,10 @@ fn t() -> Op {
 fn scripts(tier: Tier) -> Vec<Script> {
     let ins = |rows: Vec<Vec<Val>>| Op::Insert { table: "T".into(), rows };
     let mut v = vec![
-        Script { name: "S1-create-insert", seed_ops: vec![], ops: vec![t(), ins(vec![vec![Val::Int(1), Val::s("one")], vec![Val::Int(2), Val::s("two")]]), Op::Flush] },
+        Script { name: "S1-create-insert", signed: false, seed_ops: vec![], ops: vec![t(), ins(vec![vec![Val::Int(1), Val::s("one")], vec![Val::Int(2), Val::s("two")]]), Op::Flush] },
         Script {
             name: "S2-open-update-delete",
+            signed: false,
             seed_ops: vec![t(), ins(vec![vec![Val::Int(1), Val::s("one")], vec![Val::Int(2), Val::s("two")], vec![Val::Int(3), Val::s("three")]])],
             ops: vec![
                 Op::Update { table: "T".into(), sets: vec![("S".into(), Val::s("uno"))], cond: Some(E::bin(Bin::Eq, E::col("K"), E::int(1))) },
@@ -40,16 +43,34 @@ fn scripts(tier: Tier) -> Vec<Script> {
         },
         Script {
             name: "S4-summary",
+            signed: false,
             seed_ops: vec![],
             ops: vec![Op::Summary(SumOp::SetAuthor("Jane".into())), Op::Summary(SumOp::SetComments("c".repeat(600))), Op::Flush, Op::Summary(SumOp::ClearTitle), Op::Flush],
         },
     ];
+    // a signed package: removing the signature, then a change, then flush
+    v.push(Script {
+        name: "S8-remove-signature",
+        signed: true,
+        seed_ops: vec![t(), ins(vec![vec![Val::Int(1), Val::s("one")]])],
+        ops: vec![Op::RemoveSignature, Op::Flush, Op::Summary(SumOp::SetAuthor("Jane".into())), Op::Flush],
+    });
     if tier.thorough() {
+        // a string pool larger than the container's 8 KiB buffer: reads of the
+        // pool during open span several buffer refills
+        let distinct: Vec<Vec<Val>> = (1..=2500).map(|i| vec![Val::Int(i), Val::Str(format!("string-number-{:05}", i))]).collect();
+        v.push(Script {
+            name: "S9-open-large-pool-update",
+            signed: false,
+            seed_ops: vec![t(), ins(distinct)],
+            ops: vec![Op::Update { table: "T".into(), sets: vec![("S".into(), Val::s("changed"))], cond: Some(E::bin(Bin::Eq, E::col("K"), E::int(2500))) }, Op::Flush],
+        });
         let many: Vec<Vec<Val>> = (1..=3000).map(|i| vec![Val::Int(i), Val::Str(format!("s{}", i % 7))]).collect();
-        v.push(Script { name: "S3-insert-3000-rows", seed_ops: vec![t()], ops: vec![ins(many), Op::Flush] });
-        v.push(Script { name: "S5-user-stream", seed_ops: vec![], ops: vec![Op::WriteStream { name: "Data".into(), len: 9000, seed: 3 }, Op::Flush, Op::WriteStream { name: "small".into(), len: 10, seed: 4 }, Op::Flush] });
+        v.push(Script { name: "S3-insert-3000-rows", signed: false, seed_ops: vec![t()], ops: vec![ins(many), Op::Flush] });
+        v.push(Script { name: "S5-user-stream", signed: false, seed_ops: vec![], ops: vec![Op::WriteStream { name: "Data".into(), len: 9000, seed: 3 }, Op::Flush, Op::WriteStream { name: "small".into(), len: 10, seed: 4 }, Op::Flush] });
         v.push(Script {
             name: "S6-create-drop-insert",
+            signed: false,
             seed_ops: vec![],
             ops: vec![
                 t(),
@@ -61,7 +82,7 @@ fn scripts(tier: Tier) -> Vec<Script> {
                 Op::Flush,
             ],
         });
-        v.push(Script { name: "S7-database-codepage", seed_ops: vec![t(), ins(vec![vec![Val::Int(1), Val::s("caf\u{e9}")]])], ops: vec![Op::SetDbCodepage(1252), Op::Flush] });
+        v.push(Script { name: "S7-database-codepage", signed: false, seed_ops: vec![t(), ins(vec![vec![Val::Int(1), Val::s("caf\u{e9}")]])], ops: vec![Op::SetDbCodepage(1252), Op::Flush] });
     }
     v
 }
@@ -260,7 +281,8 @@ pub fn run_check(tier: Tier) -> i32 {
             for op in &script.seed_ops {
                 assert!(h.apply(op).is_ok(), "seed op {}", op.show());
             }
-            Some(h.close_into_inner().expect("seed close"))
+            let b = h.close_into_inner().expect("seed close");
+            Some(if script.signed { add_signature(b) } else { b })
         };
         let start: Snapshot = match &seed {
             None => crate::e1::fresh(0).snapshot,
@@ -407,6 +429,15 @@ pub fn run_check(tier: Tier) -> i32 {
     rep.finish()
 }
 
+fn add_signature(bytes: Vec<u8>) -> Vec<u8> {
+    use std::io::Write;
+    let mut comp = cfb::CompoundFile::open(std::io::Cursor::new(bytes)).expect("cfb open");
+    comp.create_stream("\u{5}DigitalSignature").expect("sig").write_all(&[7u8; 300]).expect("w");
+    comp.create_stream("\u{5}MsiDigitalSignatureEx").expect("sigex").write_all(&[9u8; 6000]).expect("w");
+    comp.flush().expect("flush");
+    comp.into_inner().into_inner()
+}
+
 /// Cumulative (writes, reads, seeks, flushes) after each step of a fault-free
 /// run: boundaries[i] = counts after step i.
 fn step_boundaries(script: &Script, seed: &Option<Vec<u8>>) -> Vec<[u64; 4]> {
@@ -465,7 +496,8 @@ pub fn replay(doc: &serde_json::Value) {
             for op in &script.seed_ops {
                 h.apply(op);
             }
-            Some(h.close_into_inner().expect("close"))
+            let b = h.close_into_inner().expect("close");
+            Some(if script.signed { add_signature(b) } else { b })
         };
         let start = match &seed {
             None => crate::e1::fresh(0).snapshot,
